@@ -3273,7 +3273,13 @@ void Analyser::AnalyserImpl::analyseModel(const ModelPtr &model)
         if (type == AnalyserEquation::Type::EXTERNAL) {
             for (const auto &unknownVariable : internalEquation->mUnknownVariables) {
                 for (const auto &dependency : unknownVariable->mDependencies) {
-                    variableDependencies.push_back(dependency);
+                    // Note: the dependencies of an external variable were recorded
+                    //       before the equations were analysed, i.e. before the
+                    //       variable that stands for an equivalence class was set
+                    //       to the one in the component of the equation that
+                    //       computes it, so look that variable up again.
+
+                    variableDependencies.push_back(Analyser::AnalyserImpl::internalVariable(dependency)->mVariable);
                 }
             }
         } else {
